@@ -13,7 +13,7 @@
 (* its return type.  Errs(m, f) is the set of rule names the method breaks *)
 (* under backend flags f.                                                  *)
 (***************************************************************************)
-EXTENDS Naturals, Sequences, FiniteSets, TLC
+EXTENDS Integers, Sequences, FiniteSets, TLC
 TypeK == {"opaque", "struct", "enum", "outstruct"}
 SelfK == {"none", "ref", "mut", "val"}
 ParamK == {"same_ref", "same_mut", "same_opt", "same_val", "prim"}
@@ -97,6 +97,19 @@ Errs(m, f) ==
          \cup (IF Succ(m) = "unit" THEN {} ELSE {"assign_returns_nothing"})
 
 Accepted(m, f) == Errs(m, f) = {}
+
+\* ---- what the markers promise to the host language (bindings that have operators derive them from the marked method) ----
+\* a `comparison` method returns Ordering o \in {-1, 0, 1}; every derived relational operator is a function of o alone
+RelOps == {"==", "!=", "<", "<=", ">", ">="}
+RelHolds(op, o) == CASE op = "==" -> o = 0 [] op = "!=" -> o # 0 [] op = "<" -> o = -1 [] op = "<=" -> o # 1
+                     [] op = ">" -> o = 1 [] op = ">=" -> o # -1
+\* arithmetic markers map to the operator of the same name; *_assign variants mutate the receiver and return nothing
+ArithOp == [add |-> "+", sub |-> "-", mul |-> "*", div |-> "/", add_assign |-> "+=", sub_assign |-> "-=", mul_assign |-> "*=", div_assign |-> "/="]
+\* the relational operators are consistent with each other: exactly the usual laws
+RelLaws == \A o \in {-1, 0, 1} : /\ RelHolds("!=", o) = ~RelHolds("==", o)
+                                 /\ RelHolds("<=", o) = (RelHolds("<", o) \/ RelHolds("==", o))
+                                 /\ RelHolds(">=", o) = (RelHolds(">", o) \/ RelHolds("==", o))
+                                 /\ RelHolds(">=", o) = ~RelHolds("<", o)
 
 \* ---- sanity properties of the rule set (checked by TLC over every method in scope) ----------
 Methods == {m \in [tk : TypeK, self : SelfK, params : {<<>>} \cup {<<p>> : p \in ParamK} \cup {<<p, q>> : p \in ParamK, q \in {"prim"}},
